@@ -18,6 +18,9 @@ pub enum IOp {
     /// set a label on my task, return the previous one
     LabelSet(u32),
     LabelGet,
+    /// "set a label for a scope, restore the previous value on drop": the guard lives until the
+    /// thread's program ends — or until its stack is unwound when the execution is abandoned
+    LabelScope(u32),
     /// my vector clock, the context-switch counter and the recorded schedule length
     Counters,
     Me,
@@ -82,12 +85,31 @@ static ONCE: Once = Once::new();
 #[derive(Clone, Debug, PartialEq, Eq)]
 struct Lbl(u32);
 
+/// Restores the previous label of its task when dropped.
+pub struct LabelGuard {
+    task: shuttle::current::TaskId,
+    prev: Option<Lbl>,
+}
+impl Drop for LabelGuard {
+    fn drop(&mut self) {
+        match self.prev.take() {
+            Some(p) => {
+                shuttle::current::set_label_for_task(self.task, p);
+            }
+            None => {
+                shuttle::current::remove_label_for_task::<Lbl>(self.task);
+            }
+        }
+    }
+}
+
 pub struct IObjs {
     m: Mutex<u32>,
 }
 pub struct ILocals {
     g: Option<MutexGuard<'static, u32>>,
     guards: Vec<Guard>,
+    label_guards: Vec<LabelGuard>,
 }
 
 pub struct IsoFam;
@@ -105,7 +127,7 @@ impl Family for IsoFam {
         IObjs { m: Mutex::new(0) }
     }
     fn new_locals(_c: &(), _t: usize) -> ILocals {
-        ILocals { g: None, guards: vec![] }
+        ILocals { g: None, guards: vec![], label_guards: vec![] }
     }
     fn on_start(_o: &IObjs, t: usize) {
         if t == 0 {
@@ -142,6 +164,13 @@ impl Family for IsoFam {
             }
             IOp::LabelSet(v) => IRes::Label(shuttle::current::set_label_for_task(me, Lbl(*v)).map(|l| l.0)),
             IOp::LabelGet => IRes::Label(shuttle::current::get_label_for_task::<Lbl>(me).map(|l| l.0)),
+            IOp::LabelScope(v) => {
+                let prev = shuttle::current::set_label_for_task(me, Lbl(*v));
+                let r = IRes::Label(prev.as_ref().map(|l| l.0));
+                // restore an "idle" marker rather than nothing, as scope guards commonly do
+                l.label_guards.push(LabelGuard { task: me, prev: prev.or(Some(Lbl(99))) });
+                r
+            }
             IOp::Counters => {
                 let clock = shuttle::current::clock();
                 let v: Vec<u32> = clock.iter().cloned().collect();
@@ -187,6 +216,8 @@ pub fn program_set(_set: &str) -> Vec<Program<IsoFam>> {
         (vec![LazyGet, Lock, LabelSet(3), Unlock], vec![vec![Lock, LazyGet, Unlock, Counters], vec![TlsBump, OnceCall]]),
         (vec![Me, Counters], vec![vec![Me, MakeGuard, Yield, Counters], vec![Me, LabelGet, TlsBump]]),
         (vec![Lock, MakeGuard, OnceCall, Unlock, TlsBump], vec![vec![Lock, LazyGet, MakeGuard, Unlock]]),
+        (vec![LabelGet, LabelScope(5), Yield, LabelGet], vec![vec![LabelGet, Yield, LabelScope(6), LabelGet]]),
+        (vec![LabelGet, Lock, LabelScope(7), Unlock, Counters], vec![vec![LabelGet, Lock, LabelScope(8), Yield, Unlock], vec![LabelGet]]),
     ];
     bodies.into_iter().map(|(m, ch)| Program::fork_join((), m, ch)).collect()
 }
